@@ -174,6 +174,11 @@ def _r08c_one(ctx, P, rid, fname):
     ctx.saw(f)
     sl = Slice(f, through_all_calls=True)
     rec = [(b, t) for b, t in f.calls() if callee_of(t) in (FILTERS + "passes_filters_at", FILTERS + "filter_matches")]
+    if not rec:
+        # iterator form: the per-object evaluation sits in a closure handed to any()/find()/... over the candidate objects
+        n = _r08c_adapter_form(ctx, P, rid, fname, f)
+        ctx.floor(rid + "." + fname, n, 1, "per-object recursion in " + fname + " (loop or iterator form)")
+        return
     ctx.floor(rid + "." + fname, len(rec), 1, "per-object recursion in " + fname)
     for b, t in rec:
         idx_src = sl.sources(t["args"][4])
@@ -244,6 +249,118 @@ def _r08c_one(ctx, P, rid, fname):
                             okz = True
     ctx.ob(rid, "%s:%s:no-objects-no-match" % (rid, fname), okz, "a document with no object at the nested path does not pass" if okz else
            "%s does not return false for a document without objects at the path" % fname, "%s:%s" % (f.file, f.line))
+
+
+def _is_parent_filter(P, fn, agg):
+    """agg = closure aggregate built in fn: does the closure compare the recorded parent of an object with the binding?
+    Its captures must include a value derived from FastFieldsReader::nested_parents and one derived from the parent binding,
+    and its body must contain an equality test."""
+    g = P.fn(agg.get("closure"))
+    if g is None:
+        return False
+    sl = Slice(fn, through_all_calls=True)
+    from_parents = from_binding = False
+    for o in agg["ops"]:
+        srcs = sl.sources(o)
+        if any(x[0] == "call" and callee_of(x[2]).endswith("FastFieldsReader::nested_parents") for x in srcs):
+            from_parents = True
+        l = op_local(o)
+        if any(x[0] == "arg" and (fn.locals[x[1]].get("name") or "").startswith("parent") for x in srcs) or \
+                (l is not None and (_derives_from_param(fn, l, "parent_idx") or "parent_idx" in _named_in(fn, o) or "parent" in _named_in(fn, o))) or \
+                any(x[0] == "field" and (fn.locals[x[1]].get("name") or "").startswith("parent") for x in srcs):
+            from_binding = True
+    has_eq = any(callee_of(t).endswith(("PartialEq::eq", "PartialEq::ne", "PartialEq<U>>::eq", "PartialEq<U>>::ne")) or "PartialEq" in callee_of(t)
+                 for h in [g] + P.closures_of(g) for b, t in h.calls()) or \
+        any(st["k"] == "assign" and st["rv"]["k"] == "binop" and st["rv"]["op"] in ("Eq", "Ne") for h in [g] + P.closures_of(g) for b, i, st in h.stmts())
+    return from_parents and from_binding and has_eq
+
+
+def _chain_has_parent_filter(P, fn, operand):
+    sl = Slice(fn, through_all_calls=True)
+    for x in sl.sources(operand):
+        if x[0] == "call" and callee_of(x[2]).endswith(("Iterator::filter", "Iterator::filter_map", "Iterator::take_while", "Iterator::skip_while")):
+            for a in x[2]["args"][1:]:
+                for y in sl.sources(a):
+                    if y[0] == "agg" and y[3].get("closure") and _is_parent_filter(P, fn, y[3]):
+                        return True
+    return False
+
+
+def _none_arm_blocks(fn, pname="parent_idx"):
+    """Blocks that run only when the parent binding parameter is None."""
+    out = set()
+    for b in fn.reachable():
+        t = fn.blocks[b]["term"]
+        if t["k"] != "switch":
+            continue
+        for d in fn.defs().get(op_local(t["on"]), []):
+            if d["k"] == "assign" and d["rv"]["k"] == "discr" and _derives_from_param(fn, d["rv"]["place"]["l"], pname):
+                vals = dict(zip(t["values"], t["targets"]))
+                none = vals.get(0) if 0 in vals else (t.get("otherwise") if 1 in vals else None)
+                some = vals.get(1) if 1 in vals else (t.get("otherwise") if 0 in vals else None)
+                if none is not None:
+                    reach_none = fn.reachable_from(none)
+                    reach_some = fn.reachable_from(some) if some is not None else set()
+                    out |= {x for x in reach_none if x not in reach_some}
+    return out
+
+
+def _r08c_adapter_form(ctx, P, rid, fname, f):
+    """The candidates come from an iterator chain (or from a helper returning them) and the evaluation is the closure of
+    any()/find()/all()/position().  Decided positively only: a violation needs a concrete unfiltered source."""
+    n = 0
+    for g in P.closures_of(f):
+        rec = [(b, t) for b, t in g.calls() if callee_of(t) in (FILTERS + "passes_filters_at", FILTERS + "filter_matches")]
+        if not rec:
+            continue
+        par = P.fn(g.parent)
+        sl = Slice(par, through_all_calls=True)
+        gsl = Slice(g, through_all_calls=True)
+        for b, t in rec:
+            n += 1
+            idx_src = gsl.sources(t["args"][4])
+            binds = any(x[0] == "agg" and x[3].get("adt") == "core::option::Option" and x[3].get("variant") == "Some" for x in idx_src) and \
+                any(x[0] == "arg" and x[1] >= 2 for x in idx_src)
+            ctx.ob(rid, "%s:%s:recursion-binds-iterated-object" % (rid, fname), binds,
+                   "the evaluation closure binds Some(<its element>)" if binds else "the per-object evaluation does not bind the element it is given",
+                   Site(g, b).loc())
+            # adapter call(s) in the parent that receive this closure
+            verdict = None
+            where = None
+            why = "the candidate objects do not come from a recognised source"
+            for pb, pt in par.calls():
+                if not any(y[0] == "agg" and y[3].get("closure") == g.path for a in pt["args"][1:] for y in sl.sources(a)):
+                    continue
+                recv = pt["args"][0]
+                where = Site(par, pb).loc()
+                if _chain_has_parent_filter(P, par, recv):
+                    # the filter must not be bypassed when a binding exists: it is, if another definition of the chain lacks it
+                    verdict = True
+                    continue
+                helpers = [x for x in sl.sources(recv) if x[0] == "call" and callee_of(x[2]) in P.fns and
+                           P.fns[callee_of(x[2])].crate == "searchlite_core" and callee_of(x[2]).startswith(FILTERS)]
+                for x in helpers:
+                    h = P.fns[callee_of(x[2])]
+                    ctx.saw(h)
+                    exempt = _none_arm_blocks(h)
+                    hv = True
+                    for d0 in h.defs().get(0, []):
+                        if d0["b"] in exempt:
+                            continue
+                        ops = d0["t"]["args"] if d0["k"] == "call" else ([d0["rv"]["a"]] if d0["rv"]["k"] in ("use", "cast") else d0["rv"].get("ops", []))
+                        if not any(_chain_has_parent_filter(P, h, o) for o in ops if isinstance(o, dict) and op_local(o) is not None):
+                            hv = False
+                            why = "%s returns candidates at %s that are not filtered by their recorded parent although a binding exists" % (
+                                h.short, Site(h, d0["b"], d0.get("i", TERM)).loc())
+                    if verdict is None or not hv:
+                        verdict = hv
+            if verdict is None:
+                ctx.note("R08.c: %s: candidate source at %s not recognised; parent binding not decided for this shape" % (fname, where))
+                continue
+            ctx.ob(rid, "%s:%s:foreign-parent-skipped" % (rid, fname), verdict,
+                   "candidates are filtered by their recorded parent whenever a binding exists (%s)" % where if verdict else
+                   "%s: %s" % (fname, why), where or Site(g, b).loc())
+    return n
 
 
 def _named_in(f, operand, depth=0):
